@@ -452,7 +452,7 @@ func buildScenarios() []*scenario {
 			}, nil, "")
 			return mkEntry(label, a, dev1E.uniq)
 		}
-		sc := &scenario{Name: "revisions-formats", trusted: trusted, prereq: []*entry{storeKey, dev1E}, depthQ: 4, depthT: 5}
+		sc := &scenario{Name: "revisions-formats", trusted: trusted, prereq: []*entry{storeKey, dev1E}, depthQ: 3, depthT: 5}
 		sc.pool = []*entry{
 			decl("s1:r0:f0", snapID1, "foo", 0, 0),
 			decl("s1:r1:f1", snapID1, "foo", 1, 1),
@@ -500,7 +500,7 @@ func buildScenarios() []*scenario {
 			}, nil, "")
 			return mkEntry(label, a)
 		}
-		sc := &scenario{Name: "sequences", trusted: trusted, prereq: []*entry{storeKey}, depthQ: 4, depthT: 5}
+		sc := &scenario{Name: "sequences", trusted: trusted, prereq: []*entry{storeKey}, depthQ: 3, depthT: 5}
 		sc.predefined = []*entry{vs("P:vs3:seq2:r0:f0", "vs3", 2, 0, 0)}
 		sc.pool = []*entry{
 			vs("vs1:seq1:r0:f0", "vs1", 1, 0, 0),
@@ -645,6 +645,8 @@ func buildScenarios() []*scenario {
 		}
 		scs = append(scs, sc)
 	}
+	// cheapest first, so that a time cap on a loaded machine cuts the biggest scenario only
+	sort.SliceStable(scs, func(i, j int) bool { return len(scs[i].pool) < len(scs[j].pool) })
 	return scs
 }
 
@@ -794,7 +796,7 @@ func newWorld(sc *scenario) *world {
 // ---------------------------------------------------------------- the test
 
 func TestC19(t *testing.T) {
-	r := eng.Start("C19", "model_checking", 90*time.Second, 14*time.Minute)
+	r := eng.Start("C19", "model_checking", 90*time.Second, 10*time.Minute)
 	r.Assume("reference model: immutable trusted and predefined layers in front of a map identity -> format -> last successfully added assertion; current = highest revision among formats <= the format bound",
 		"all pool assertions are validly signed (assertstest store stack, freshly generated test keys); validation-set is given a second supported format (asserts.MockMaxSupportedFormat) so that format bounds matter for sequences",
 		"filesystem backstore under a temporary directory with snapd's test-binary default SNAPD_UNSAFE_IO (no fsync)")
